@@ -5,11 +5,20 @@ package main
 // row by row (verif hook = what its goroutine does with one row of the FIFO) and drained after every
 // row; a subset of the cases is additionally run through the public API (Execute/Emit/sync sink).
 //
-// line:  C17 <mode> # <ncols> <nfields> # <out refs> # <pred, prefix form> # <binding> # <rows> # <stepped obs> [# <e2e obs>]
+// line:  C17 <mode> # <ncols> <nfields> <column name of field 0> .. # <out refs> # <pred, prefix form> # <binding> # <rows> # <stepped obs> [# <e2e obs>]
 //   ref   = c* | c<f> | s<f> | a<f> | m<f> | x<f>      (count, sum, avg, min, max; f = field index)
 //   pred  = & p q | "|" p q | <ref> <op> <lit>          op in gt ge lt le eq ne ; lit = n/d
-//   bind  = one token per aggregate call of the predicate in document order: b (bound to a SELECT aggregate) | t (trigger only)
+//   bind  = one token per aggregate call of the predicate in document order: b<j> (the placeholder reads SELECT aggregate j,
+//           as buildTrigger decided) | t (trigger only)
 //   row   = <key> v0 .. v(nfields-1)    key = comma separated ids or "-" ; value = n/d | N (NULL) | A (absent)
+//   column names: the model knows fields by index only; the names (lower-case, mixed-case such as deviceTemp /
+//           loadKw / X1, or two columns that differ in letter case only) are what the SQL and the rows use.
+//           Column names are case sensitive in a row, so fn(deviceTemp) is the aggregate of exactly that column,
+//           however the function is spelled (MAX/max/Max) and whether or not the call is bound to a SELECT output.
+//   bind  : besides b<j> / t the harness writes wrong:<fn>:<field> when the i-th call extracted from the predicate is
+//           not the i-th call written; the driver classifies every b<j> (same aggregate | the same function over a
+//           column whose name differs in letter case only | anything else) and judges the outputs by the predicate as
+//           written.
 //   obs   = list of: <rowindex> <key> val..  (one val per out ref; val = round(x*2^40) | N) ; e2e obs has rowindex "?"
 
 import (
@@ -28,6 +37,52 @@ import (
 func init() { runners["C17"] = runC17 }
 
 var c17Fields = []string{"v", "w", "x"}
+
+// column names with upper-case letters (and a few without); pairwise distinct when case is ignored
+var c17MixedNames = []string{"deviceTemp", "loadKw", "X1", "Temp", "RPM", "kWh", "sensorA", "Pressure", "outTempC",
+	"vBat", "Q", "humidity", "v", "flowRate2", "t2", "W"}
+
+// two columns of one row that differ in letter case only
+var c17TwinNames = [][2]string{{"temp", "Temp"}, {"X1", "x1"}, {"loadKw", "loadkw"}, {"deviceTemp", "DeviceTemp"}, {"RPM", "rpm"}, {"v", "V"}}
+
+// c17GenNames: the column names of the nf numeric fields and the name of the family.
+func c17GenNames(rng *RNG, nf int) ([]string, string) {
+	k := rng.Intn(20)
+	switch {
+	case k < 4:
+		return append([]string(nil), c17Fields[:nf]...), "lower"
+	case k < 7 && nf >= 2:
+		tw := c17TwinNames[rng.Intn(len(c17TwinNames))]
+		names := []string{tw[0], tw[1]}
+		if rng.Bool() {
+			names[0], names[1] = names[1], names[0]
+		}
+		for len(names) < nf {
+			n := c17MixedNames[rng.Intn(len(c17MixedNames))]
+			if !strings.EqualFold(n, names[0]) {
+				names = append(names, n)
+			}
+		}
+		// the pair is not always fields 0 and 1
+		j := rng.Intn(nf)
+		names[0], names[j] = names[j], names[0]
+		return names, "twin"
+	}
+	var names []string
+	for len(names) < nf {
+		n := c17MixedNames[rng.Intn(len(c17MixedNames))]
+		dup := false
+		for _, m := range names {
+			dup = dup || strings.EqualFold(m, n)
+		}
+		if !dup {
+			names = append(names, n)
+		}
+	}
+	return names, "mixed"
+}
+
+func c17HasUpper(s string) bool { return strings.ToLower(s) != s }
 var c17Cols = []string{"ga", "gb"}
 var c17FnTok = []string{"c", "s", "a", "m", "x"}
 var c17FnSQL = []string{"count", "sum", "avg", "min", "max"}
@@ -62,10 +117,10 @@ func c17Case(rng *RNG, s string) string {
 	return s
 }
 
-func (r c17Ref) sql(rng *RNG) string {
+func (r c17Ref) sql(rng *RNG, names []string) string {
 	f := "*"
 	if r.fld >= 0 {
-		f = c17Fields[r.fld]
+		f = names[r.fld]
 	}
 	sp := []string{"", " "}
 	return c17Case(rng, c17FnSQL[r.fn]) + sp[rng.Intn(2)] + "(" + sp[rng.Intn(2)] + f + sp[rng.Intn(2)] + ")"
@@ -99,12 +154,12 @@ func (p *c17Pred) toks() string {
 
 // SQL text: AND binds tighter than OR; a right operand of the same operator is parenthesised at
 // random (both forms denote the same left-to-right evaluation).
-func (p *c17Pred) sql(rng *RNG) string {
+func (p *c17Pred) sql(rng *RNG, names []string) string {
 	if p.kind == 'a' {
-		return p.ref.sql(rng) + " " + c17OpSQL[p.op] + " " + p.lit.sql()
+		return p.ref.sql(rng, names) + " " + c17OpSQL[p.op] + " " + p.lit.sql()
 	}
 	wrap := func(c *c17Pred, right bool) string {
-		s := c.sql(rng)
+		s := c.sql(rng, names)
 		if c.kind == 'a' {
 			return s
 		}
@@ -265,6 +320,8 @@ func c17ResultTok(idx string, m map[string]any, ncols, nouts int) string {
 
 type c17Spec struct {
 	ncols, nf int
+	fnames    []string // column name of field i
+	family    string   // lower | mixed | twin
 	outs      []c17Ref
 	pred      *c17Pred
 	sql       string
@@ -275,6 +332,7 @@ func c17Gen(rng *RNG, maxRows int) c17Spec {
 	var s c17Spec
 	s.ncols = []int{0, 1, 1, 1, 2, 2}[rng.Intn(6)]
 	s.nf = rng.Range(1, 3)
+	s.fnames, s.family = c17GenNames(rng, s.nf)
 	nouts := rng.Range(1, 4)
 	for i := 0; i < nouts; i++ {
 		s.outs = append(s.outs, c17GenRef(rng, s.nf))
@@ -286,13 +344,13 @@ func c17Gen(rng *RNG, maxRows int) c17Spec {
 		sel = append(sel, c17Cols[c])
 	}
 	for i, r := range s.outs {
-		sel = append(sel, r.sql(rng)+" AS o"+strconv.Itoa(i))
+		sel = append(sel, r.sql(rng, s.fnames)+" AS o"+strconv.Itoa(i))
 	}
 	s.sql = "SELECT " + strings.Join(sel, ", ") + " FROM stream "
 	if s.ncols > 0 {
 		s.sql += "GROUP BY " + strings.Join(c17Cols[:s.ncols], ", ") + ", "
 	}
-	s.sql += "GLOBAL WINDOW TRIGGER WHEN " + s.pred.sql(rng)
+	s.sql += "GLOBAL WINDOW TRIGGER WHEN " + s.pred.sql(rng, s.fnames)
 	// groups
 	ng := 1
 	if s.ncols > 0 {
@@ -325,7 +383,7 @@ func c17Gen(rng *RNG, maxRows int) c17Spec {
 			if rng.Intn(100) < nullPct {
 				if rng.Bool() {
 					row.vals = append(row.vals, "N")
-					row.data[c17Fields[f]] = nil
+					row.data[s.fnames[f]] = nil
 				} else {
 					row.vals = append(row.vals, "A")
 				}
@@ -334,14 +392,14 @@ func c17Gen(rng *RNG, maxRows int) c17Spec {
 			if rng.Intn(3) == 0 {
 				q := rng.Range(-12, 32)
 				row.vals = append(row.vals, c17Q(q).tok())
-				row.data[c17Fields[f]] = float64(q) / 4
+				row.data[s.fnames[f]] = float64(q) / 4
 			} else {
 				z := rng.Range(-3, 8)
 				row.vals = append(row.vals, c17Q(4*z).tok())
 				if rng.Intn(4) == 0 {
-					row.data[c17Fields[f]] = int64(z)
+					row.data[s.fnames[f]] = int64(z)
 				} else {
-					row.data[c17Fields[f]] = z
+					row.data[s.fnames[f]] = z
 				}
 			}
 		}
@@ -379,13 +437,18 @@ func c17Stepped(s c17Spec) (bind string, obs string, nres int, err error) {
 	for i, t := range ts {
 		tag := "t"
 		if t.OutputAlias != "" {
-			tag = "b"
+			// bound: the placeholder reads the SELECT aggregate with this alias (aliases are o0, o1, ..)
+			tag = "b?" + t.OutputAlias
+			if j, err := strconv.Atoi(strings.TrimPrefix(t.OutputAlias, "o")); err == nil && j >= 0 && j < len(s.outs) {
+				tag = "b" + strconv.Itoa(j)
+			}
 		}
-		// the call must be the i-th call of the predicate
+		// the call must be the i-th call of the predicate: same function, same column (names are case
+		// sensitive: InputField is the key the row is read with)
 		if i < len(want) {
 			f := "*"
 			if want[i].fld >= 0 {
-				f = c17Fields[want[i].fld]
+				f = s.fnames[want[i].fld]
 			}
 			if t.AggType != c17FnSQL[want[i].fn] || t.InputField != f {
 				tag = "wrong:" + t.AggType + ":" + t.InputField
@@ -466,7 +529,7 @@ func c17Line(s c17Spec, mode, bind, obs, e2e string) string {
 	for _, r := range s.rows {
 		rows = append(rows, c17KeyTok(r.key)+" "+strings.Join(r.vals, " "))
 	}
-	l := fmt.Sprintf("C17 %s # %d %d # %s # %s # %s # %s # %s", mode, s.ncols, s.nf, strings.Join(outs, " "),
+	l := fmt.Sprintf("C17 %s # %d %d %s # %s # %s # %s # %s # %s", mode, s.ncols, s.nf, strings.Join(s.fnames, " "), strings.Join(outs, " "),
 		s.pred.toks(), bind, strings.Join(rows, " "), obs)
 	if mode == "E" {
 		l += " # " + e2e
@@ -476,8 +539,9 @@ func c17Line(s c17Spec, mode, bind, obs, e2e string) string {
 
 // hand-written boundary cases (always run first)
 func c17Corpus() []c17Spec {
-	mk := func(ncols, nf int, outs []c17Ref, p *c17Pred, sql string, rows [][]any) c17Spec {
-		s := c17Spec{ncols: ncols, nf: nf, outs: outs, pred: p, sql: sql}
+	mkN := func(names []string, family string, ncols int, outs []c17Ref, p *c17Pred, sql string, rows [][]any) c17Spec {
+		nf := len(names)
+		s := c17Spec{ncols: ncols, nf: nf, outs: outs, pred: p, sql: sql, fnames: names, family: family}
 		for _, r := range rows {
 			g := r[0].(int)
 			row := c17Row{data: map[string]any{}}
@@ -489,17 +553,20 @@ func c17Corpus() []c17Spec {
 				switch x := r[1+f].(type) {
 				case nil:
 					row.vals = append(row.vals, "N")
-					row.data[c17Fields[f]] = nil
+					row.data[names[f]] = nil
 				case string:
 					row.vals = append(row.vals, "A")
 				case int:
 					row.vals = append(row.vals, c17Q(4*x).tok())
-					row.data[c17Fields[f]] = x
+					row.data[names[f]] = x
 				}
 			}
 			s.rows = append(s.rows, row)
 		}
 		return s
+	}
+	mk := func(ncols, nf int, outs []c17Ref, p *c17Pred, sql string, rows [][]any) c17Spec {
+		return mkN(c17Fields[:nf], "lower", ncols, outs, p, sql, rows)
 	}
 	atom := func(r c17Ref, op int, lit int) *c17Pred { return &c17Pred{kind: 'a', ref: r, op: op, lit: c17Q(4 * lit)} }
 	cs, sv, mx, mn := c17Ref{0, -1}, c17Ref{1, 0}, c17Ref{4, 0}, c17Ref{3, 0}
@@ -518,6 +585,20 @@ func c17Corpus() []c17Spec {
 		// NULL != literal is true for the engine
 		mk(1, 1, []c17Ref{cs, mn}, atom(mn, 5, 5), "SELECT ga, count(*) AS o0, min(v) AS o1 FROM stream GROUP BY ga, GLOBAL WINDOW TRIGGER WHEN min(v) != 5",
 			[][]any{{0, nil}, {0, 5}, {0, 4}, {0, "A"}}),
+		// mixed-case column names, upper-case function names (no call is bound): max over column 0, sum over column 1
+		mkN([]string{"deviceTemp", "loadKw"}, "mixed", 1, []c17Ref{cs},
+			&c17Pred{kind: '|', l: atom(mx, 0, 50), r: atom(c17Ref{1, 1}, 1, 10)},
+			"SELECT ga, COUNT(*) AS o0 FROM stream GROUP BY ga, GLOBAL WINDOW TRIGGER WHEN MAX(deviceTemp) > 50 OR SUM(loadKw) >= 10",
+			[][]any{{0, 40, 1}, {1, 20, 6}, {0, 55, 1}, {1, 21, 3}, {1, 22, 2}, {0, 30, 1}}),
+		// the same columns, lower-case function names in SELECT and mixed in TRIGGER WHEN (both calls bound)
+		mkN([]string{"deviceTemp", "loadKw"}, "mixed", 1, []c17Ref{cs, mx, {1, 1}},
+			&c17Pred{kind: '|', l: atom(mx, 0, 50), r: atom(c17Ref{1, 1}, 1, 10)},
+			"SELECT ga, count(*) AS o0, max(deviceTemp) AS o1, sum(loadKw) AS o2 FROM stream GROUP BY ga, GLOBAL WINDOW TRIGGER WHEN Max(deviceTemp) > 50 OR SUM(loadKw) >= 10",
+			[][]any{{0, 40, 1}, {1, 20, 6}, {0, 55, 1}, {1, 21, 3}, {1, 22, 2}, {0, 30, 1}}),
+		// two columns that differ in letter case only; the SELECT aggregate is over the other one
+		mkN([]string{"temp", "Temp"}, "twin", 1, []c17Ref{cs, mx}, atom(c17Ref{4, 1}, 0, 5),
+			"SELECT ga, count(*) AS o0, max(temp) AS o1 FROM stream GROUP BY ga, GLOBAL WINDOW TRIGGER WHEN max(Temp) > 5",
+			[][]any{{0, 9, 1}, {0, 1, 2}, {0, 2, 7}, {0, 1, 1}}),
 		// no GROUP BY: one global group
 		mk(0, 1, []c17Ref{cs, sv}, atom(sv, 1, 10), "SELECT COUNT(*) AS o0, SUM(v) AS o1 FROM stream GLOBAL WINDOW TRIGGER WHEN SUM(v) >= 10",
 			[][]any{{0, 4}, {0, 5}, {0, 1}, {0, 20}, {0, nil}, {0, 9}, {0, 1}}),
@@ -525,7 +606,9 @@ func c17Corpus() []c17Spec {
 }
 
 func runC17(tier string, seed uint64, o *Out) error {
-	rng := NewRNG(seed)
+	// NewRNG(k+1) is the stream of NewRNG(k) advanced by one draw: spread the seeds far apart so that
+	// different seeds give different case sets
+	rng := NewRNG(seed * 0x100000001B3)
 	nStep, nE2E, maxRows := 2500, 240, 40
 	if tier == "thorough" {
 		nStep, nE2E, maxRows = 40000, 2500, 60
@@ -538,6 +621,7 @@ func runC17(tier string, seed uint64, o *Out) error {
 	}
 	type res struct {
 		line string
+		bind string
 		err  error
 	}
 	out := make([]res, len(specs))
@@ -558,7 +642,7 @@ func runC17(tier string, seed uint64, o *Out) error {
 				return
 			}
 			if !e2e {
-				out[i] = res{line: c17Line(s, "S", bind, obs, "")}
+				out[i] = res{line: c17Line(s, "S", bind, obs, ""), bind: bind}
 				return
 			}
 			eo, err := c17E2E(s, nres)
@@ -566,7 +650,7 @@ func runC17(tier string, seed uint64, o *Out) error {
 				out[i] = res{err: err}
 				return
 			}
-			out[i] = res{line: c17Line(s, "E", bind, obs, eo)}
+			out[i] = res{line: c17Line(s, "E", bind, obs, eo), bind: bind}
 		}()
 	}
 	wg.Wait()
@@ -578,6 +662,19 @@ func runC17(tier string, seed uint64, o *Out) error {
 		s := specs[i]
 		o.Count(fmt.Sprintf("groupcols_%d", s.ncols))
 		o.Count(fmt.Sprintf("pred_calls_%d", len(s.pred.refs(nil))))
+		o.Count("colnames_" + s.family)
+		// predicate calls over a column whose name has an upper-case letter, by binding
+		bs := strings.Fields(r.bind)
+		for j, c := range s.pred.refs(nil) {
+			if c.fld >= 0 && c17HasUpper(s.fnames[c.fld]) && j < len(bs) {
+				switch {
+				case strings.HasPrefix(bs[j], "b"):
+					o.Count("call_uppercase_column_bound")
+				case bs[j] == "t":
+					o.Count("call_uppercase_column_trigger_only")
+				}
+			}
+		}
 		if strings.HasPrefix(r.line, "C17 E") {
 			o.Count("e2e_public_api")
 		} else {
